@@ -346,3 +346,11 @@ def conflicts(inp):
             expect(_same_multiset(ret, grp), 'pair-missed', grp, got)
         if len(grp) > 2 and disagree(grp) and nomissing(grp):
             expect(len(ret) >= 2, 'group-missed', 'at least two rows of %r' % (grp,), got)
+        # petl scans a group in (stable) sorted order and reports every ADJACENT pair that disagrees on a non-missing
+        # value (docstring example; the code compares each row with its predecessor): both rows of such a pair must be
+        # returned.  Reporting more rows of a disagreeing group stays allowed.
+        sgrp = [x for x in _ref_sort(rows, kf) if ref_eq(kf(x), kf(r))]
+        for a_, b_ in zip(sgrp, sgrp[1:]):
+            if any(not miss(a_[i]) and not miss(b_[i]) and a_[i] != b_[i] for i in fidx):
+                expect(any(_rep([g])[0] == _rep([a_])[0] for g in ret) and any(_rep([g])[0] == _rep([b_])[0] for g in ret),
+                       'adjacent-pair-missed', (a_, b_), got)
